@@ -195,6 +195,22 @@ PROPS = {
                                         "only through their managers", "block-level and mb_mgr-level functions are covered transitively through the ctx-level calls "
                                         "(a clobber propagates unless the C layer happens to save that register)"],
     },
+    "C20": {
+        "title": "Results depend on declared inputs only, never on stale memory or registers",
+        "variant": "default",
+        "asm": ["common/tramp.asm"],
+        "quick": {"cases": 100000},
+        "thorough": {"cases": 4000000},
+        "rule": "rapidcheck cases of four kinds (hash submit/flush histories on every family; multi-hash/murmur update partitions on every family; every AES entry "
+                "point x family x exit-path class followed by a continuation that uses the produced object; every catalog isal_/legacy entry followed by its semantic "
+                "result extractor). Each case is executed twice with identical declared inputs and complementary hidden state: pre-fill of every output buffer and of "
+                "every not-yet-initialised object (manager, context, key data, GCM context, mh/rolling state) P vs ~P, random vs different random caller-saved "
+                "GPRs beyond the arguments / zmm0-31 / k0-7 / arithmetic flags at entry of every call (trampoline), dead-stack fill 0xD7 vs 0x28. Oracle: byte "
+                "equality of every observable (outputs, tags, digests, return values, which context is handed back when, status/error/total length, results of the "
+                "continuation); opaque internals are compared through behaviour only. Non-trivial = the operation leaves part of an object unwritten or runs with "
+                "idle lanes / partial blocks. Distinct = hash of the case JSON.",
+        "assumptions": COMMON_ASSUME + ["the order in which a manager hands contexts back is treated as observable behaviour and must not depend on hidden state"],
+    },
 }
 
 # properties not (yet) claimed; kept current as checks are added
